@@ -139,6 +139,14 @@ def fid(a, b):
     return tq("fidelity", R, rho=a, sigma=b)
 
 
+def zmin1(a):
+    return z3.If(z3.RealVal(1) <= a, z3.RealVal(1), a)
+
+
+def zmax0(a):
+    return z3.If(a >= z3.RealVal(0), a, z3.RealVal(0))
+
+
 def rnd(a, dec):
     return uf("np.round[%d]" % dec, R, a)
 
@@ -151,10 +159,10 @@ CONTRACTS = {
     "trace_distance": ("toqito/state_metrics/trace_distance.py", [("rho", "arr"), ("sigma", "arr")], DENS2, lambda e: tn(sub(e["rho"], e["sigma"])) / 2, "trace_distance(rho, sigma) == trace_norm(rho - sigma) / 2"),
     "helstrom_holevo": ("toqito/state_metrics/helstrom_holevo.py", [("rho", "arr"), ("sigma", "arr")], DENS2, lambda e: z3.RealVal("1/2") + tn(sub(e["rho"], e["sigma"])) / 4, "helstrom_holevo(rho, sigma) == 1/2 + trace_norm(rho - sigma) / 4"),
     "hilbert_schmidt": ("toqito/state_metrics/hilbert_schmidt.py", [("rho", "arr"), ("sigma", "arr")], DENS2, lambda e: uf("np.linalg.norm[ord='fro']", R, sub(e["rho"], e["sigma"])) * uf("np.linalg.norm[ord='fro']", R, sub(e["rho"], e["sigma"])), "hilbert_schmidt(rho, sigma) == Tr((rho - sigma)^2) == squared Frobenius norm of rho - sigma (the documented formula)"),
-    "bures_distance": ("toqito/state_metrics/bures_distance.py", [("rho_1", "arr"), ("rho_2", "arr"), ("decimals", 10)], ["np.all(rho_1.shape == rho_2.shape)"], lambda e: sqrt(2 * (1 - rnd(fid(e["rho_1"], e["rho_2"]), 10))), "bures_distance == sqrt(2 (1 - F)) with F = fidelity rounded to `decimals`"),
-    "bures_angle": ("toqito/state_metrics/bures_angle.py", [("rho_1", "arr"), ("rho_2", "arr"), ("decimals", 10)], ["np.all(rho_1.shape == rho_2.shape)"], lambda e: uf("np.real", R, uf("np.arccos", R, sqrt(rnd(fid(e["rho_1"], e["rho_2"]), 10)))), "bures_angle == arccos(sqrt(F)) with F = fidelity rounded to `decimals` (as documented)"),
+    "bures_distance": ("toqito/state_metrics/bures_distance.py", [("rho_1", "arr"), ("rho_2", "arr"), ("decimals", 10)], ["np.all(rho_1.shape == rho_2.shape)"], lambda e: sqrt(2 * (1 - zmin1(rnd(fid(e["rho_1"], e["rho_2"]), 10)))), "bures_distance == sqrt(2 (1 - F)) with F = min(1, fidelity rounded to `decimals`)"),
+    "bures_angle": ("toqito/state_metrics/bures_angle.py", [("rho_1", "arr"), ("rho_2", "arr"), ("decimals", 10)], ["np.all(rho_1.shape == rho_2.shape)"], lambda e: uf("np.real", R, uf("np.arccos", R, sqrt(zmin1(rnd(fid(e["rho_1"], e["rho_2"]), 10))))), "bures_angle == arccos(sqrt(F)) with F = min(1, fidelity rounded to `decimals`) (as documented)"),
     "sub_fidelity": ("toqito/state_metrics/sub_fidelity.py", [("rho", "arr"), ("sigma", "arr")], ["np.all(rho.shape == sigma.shape)"] + DENS2,
-                     lambda e: uf("np.real", R, tr(mm(e["rho"], e["sigma"])) + sqrt(2 * (tr(mm(e["rho"], e["sigma"])) * tr(mm(e["rho"], e["sigma"])) - tr(mm(mm(mm(e["rho"], e["sigma"]), e["rho"]), e["sigma"]))))),
+                     lambda e: uf("np.real", R, tr(mm(e["rho"], e["sigma"])) + sqrt(2 * zmax0(uf("np.real", R, tr(mm(e["rho"], e["sigma"])) * tr(mm(e["rho"], e["sigma"])) - tr(mm(mm(mm(e["rho"], e["sigma"]), e["rho"]), e["sigma"])))))),
                      "sub_fidelity == Tr(rho sigma) + sqrt(2 ((Tr rho sigma)^2 - Tr(rho sigma rho sigma)))"),
     "fidelity": ("toqito/state_metrics/fidelity.py", [("rho", "arr"), ("sigma", "arr")], ["np.all(rho.shape == sigma.shape)", "not isinstance(rho, cvxpy.atoms.affine.vstack.Vstack)", "not isinstance(sigma, cvxpy.atoms.affine.vstack.Vstack)"] + DENS2,
                  lambda e: uf("np.real", R, tr(uf("scipy.linalg.sqrtm", Arr, mm(mm(uf("scipy.linalg.sqrtm", Arr, e["rho"]), e["sigma"]), uf("scipy.linalg.sqrtm", Arr, e["rho"]))))),
